@@ -29,10 +29,13 @@ var Prefixes = map[string][]string{
 	"matured":     {"c1:vupdate(s1)+vupdate(h1)", "c1:dadd(s1)+dadd2(s1)", "c1:", "c1:dsub(s1)+vwithdraw(s1)", "s1:", "c1:", "c1:", "c1:"},
 	"expelled":    {"c1:vupdate(s1)+vupdate(h1)", "c1:dadd(s1)+dadd2(s1)", "c1:", "c1:!dsign(s1)"},
 	"newval":      {"c1:vcreate(n1)", "c1:", "c1:von(n1)"},
-	"tinyhouse":   {"c1:vcreate(z1)", "c1:", "c1:", "c1:"}, // z1 exists with Token 0.5 unit, Stake 0 (not part of PrefixOrder; used by C05)
+	// s1 keeps 3.2 units of its own (MinSelfStakes 3, MinStakes 5) and is online only thanks to D1's delegation:
+	// withdrawing that delegation forces it offline
+	"thin":      {"c1:vupdate(s1)", "c1:dadd(s1)", "c1:vwithdrawthin(s1)", "c1:", "c1:"},
+	"tinyhouse": {"c1:vcreate(z1)", "c1:", "c1:", "c1:"}, // z1 exists with Token 0.5 unit, Stake 0 (not part of PrefixOrder; used by C05)
 }
 
-var PrefixOrder = []string{"genesis", "pending-dlg", "delegated", "withdrawing", "matured", "expelled", "newval"}
+var PrefixOrder = []string{"genesis", "pending-dlg", "delegated", "withdrawing", "matured", "expelled", "newval", "thin"}
 
 // Explore runs the bounded block-history exploration with the given oracles:
 // every sequence of <= depth blocks over the menu, from genesis and from every
@@ -47,6 +50,9 @@ func Explore(r *mc.Run, hooks Hooks, cfgs []ParamCfg, menu []string, depthGenesi
 				depth = depthGenesis
 			}
 			name := fmt.Sprintf("chain[%s|freq=%d,maxRewardsPeriod=%d]", pn, cfg.StakingTrieFrequency, cfg.MaxRewardsPeriod)
+			if cfg.PoolTenths != 0 {
+				name = fmt.Sprintf("chain[%s|freq=%d,maxRewardsPeriod=%d,rewardsPool=%d/10]", pn, cfg.StakingTrieFrequency, cfg.MaxRewardsPeriod, cfg.PoolTenths)
+			}
 			f := func() mc.Forker {
 				return &Hist{F: Fix(), R: r, Menu: menu, Prefix: Prefixes[pn], Hooks: hooks}
 			}
@@ -61,14 +67,18 @@ func Explore(r *mc.Run, hooks Hooks, cfgs []ParamCfg, menu []string, depthGenesi
 // ReplayHist re-executes a violation found by Explore.
 func ReplayHist(r *mc.Run, v *mc.Violation, hooks Hooks) {
 	var cfg ParamCfg
-	fmt.Sscanf(v.Config, "{StakingTrieFrequency:%d MaxRewardsPeriod:%d WithdrawDelay:%d WithdrawRetention:%d InactivityWait:%d PenaltyInactive:%d}",
-		&cfg.StakingTrieFrequency, &cfg.MaxRewardsPeriod, &cfg.WithdrawDelay, &cfg.WithdrawRetention, &cfg.InactivityWait, &cfg.PenaltyInactive)
+	fmt.Sscanf(v.Config, "{StakingTrieFrequency:%d MaxRewardsPeriod:%d WithdrawDelay:%d WithdrawRetention:%d InactivityWait:%d PenaltyInactive:%d PoolTenths:%d}",
+		&cfg.StakingTrieFrequency, &cfg.MaxRewardsPeriod, &cfg.WithdrawDelay, &cfg.WithdrawRetention, &cfg.InactivityWait, &cfg.PenaltyInactive, &cfg.PoolTenths)
 	SetParams(cfg)
 	pn := v.System[strings.Index(v.System, "[")+1 : strings.Index(v.System, "|")]
 	h := &Hist{F: Fix(), R: r, Prefix: Prefixes[pn], Hooks: hooks}
 	h.Reset()
 	defer h.Close()
 	for _, op := range v.Ops {
+		if !h.eligible(op[:strings.Index(op, ":")]) {
+			fmt.Println(op, "=> proposer is not an online chamber validator of the stake look-back state: outside the driver (not explored)")
+			return
+		}
 		ob := h.Apply(op)
 		fmt.Println(op, "=>", ob)
 		for _, x := range h.Check() {
